@@ -204,8 +204,12 @@ class Fam:
                     p["sb"] = sb_force[i]
             else:
                 p["sb"] = rng.weighted([("none", 3), ("toggle-off", 1)])
+            if not nf and p["sb"] == "mid":
+                p["sb"] = "top"                                   # (no function to put the pragma behind)
             p["sb_at"] = rng.range(1, nf) if nf else 0          # "mid": after this many functions
             p["st"] = rng.weighted([("top", 3), ("mid", 2), ("end", 1)]) if p["types"] else "none"
+            if not nf and p["st"] == "mid":
+                p["st"] = "top"
             p["st_at"] = rng.range(1, nf) if nf else 0
             if p["sb"] in ("inc-top", "inc-end"):
                 nm = "s%d.h" % i
@@ -239,6 +243,12 @@ class Fam:
         rng = self.rng
         p = self.progs[i]
         nf = rng.range(3, 12)
+        empty = None
+        if not big and rng.chance(1, 9):
+            # a program without functions: nothing at all, one variable, or one string in an initialiser
+            nf = 0
+            empty = rng.choice(["nothing", "variable", "string"])
+        p["empty"] = empty
         fns = []
         inherited_public = []
         for j in p["inh"]:
@@ -369,6 +379,10 @@ class Fam:
             t += '#include "%s"\n' % nm
         for j in p["inh"]:
             t += 'inherit "/%s";\n' % self.obj(j)
+        if p.get("empty") == "variable":
+            t += "int lone%d_g = %d;\n" % (i, p["k"])
+        elif p.get("empty") == "string":
+            t += "string lone%d_s = \"lone %d\";\n" % (i, p["k"])
         for g in range(p.get("grow", 0)):
             # an edit that changes what heirs see: one more global variable and one more public function
             t += "int grown%d_g = %d;\nint grown%d_f (string s) { return %d + strlen (s); }\n" % (g, 7000 + g, g, 7100 + g)
@@ -655,7 +669,7 @@ def sys_case(rng, cid, steps=None, nprog=None, big=False, script=None, mode=None
             L.append("restart " + " ".join(objs))
         reload()
     L.append("mtime /simul_efun.c 500")
-    return E.Case(cid, L, {"origin": "generated", "kind": "sys"})
+    return E.Case(cid, L, {"origin": "generated", "kind": "sys", "empty": any(p.get("empty") for p in fam.progs)})
 
 
 def unit_case(rng, cid):
@@ -776,6 +790,15 @@ def boundary():
             c.id = "b-sys-shadow-inc-%d" % seed
             B.append(c)
             nsh += 1
+    # programs without functions (nothing at all / one variable / one string), as top, in the middle and as a parent
+    nem = 0
+    for seed in range(7900, 7990):
+        c = sys_case(E.Rng(seed), "em%d" % seed, nprog=1 + seed % 3, script=["nothing", "edit-src", "nothing"],
+                     mode=["reloadp", "reload"][seed % 2])
+        if c.meta.get("empty") and nem < 10:
+            c.id = "b-sys-empty-program-%d" % seed
+            B.append(c)
+            nem += 1
     for k in range(4):
         c = sys_case(E.Rng(7300 + k), "e%d" % k, nprog=2, script=["badload", "nothing"], mode="reload")
         c.id = "b-sys-badload-%d" % k
